@@ -1489,9 +1489,10 @@ static int _handle_sm(xmpp_conn_t *const conn,
                  * but if there is, it gives a hint at what the server
                  * already received.
                  */
-                if (!_get_h_attribute(stanza, &ul_h)) {
-                    /* In cases there's no `h` included, drop all elements. */
-                    ul_h = (unsigned long)-1;
+                if (_get_h_attribute(stanza, &ul_h)) {
+                    /* Without a (usable) `h` the server reported nothing as
+                     * handled: keep all elements, they are sent again. */
+                    ul_h = 0;
                 }
                 _sm_queue_cleanup(conn, ul_h);
             }
